@@ -27,6 +27,7 @@ import (
 	"strings"
 	"sync"
 	"testing"
+	"time"
 	"unicode/utf8"
 
 	"pgregory.net/rapid"
@@ -138,7 +139,26 @@ func c07CloseEnv() {
 
 // --------------------------------------------------------------- generator
 
+// rapid's integer draws favour small values strongly (a draw from 0..99 is
+// below 4 in about a third of the cases). That is right for sizes but wrong
+// for "which kind" decisions, so those go through a fixed mixing function of
+// a wide draw: still a pure function of rapid's draws (replayable, shrinkable
+// towards the first alternative), but close to uniform.
+func c07Mix(g kit.G, n int, label string) int {
+	x := uint64(g.Int(0, 1<<30, label))
+	x = (x + 0x9E3779B97F4A7C15) * 0xBF58476D1CE4E5B9
+	x ^= x >> 31
+	return int(x % uint64(n))
+}
+
+func c07Pct(g kit.G, label string) int            { return c07Mix(g, 100, label) }
+func c07Bool(g kit.G, pct int, label string) bool { return c07Mix(g, 100, label) < pct }
+func c07Pick[T any](g kit.G, xs []T, label string) T {
+	return xs[c07Mix(g, len(xs), label)]
+}
+
 var c07Fields = []string{
+	"archived:", "b:", "branch:", "c:", "case:", "content:", "f:", "file:", "fork:", "public:", "r:", "regex:", "repo:", "lang:", "sym:", "t:", "type:",
 	"archived:", "b:", "branch:", "c:", "case:", "content:", "f:", "file:", "fork:", "public:", "r:", "regex:", "repo:", "lang:", "sym:", "t:", "type:",
 	"meta.license:", "meta.x:", "meta.:", "meta.", "meta.a.b:", "meta.nosuch:",
 }
@@ -146,43 +166,55 @@ var c07Fields = []string{
 var c07NearFields = []string{"Repo:", "FILE:", "repo :", "files:", "meta:", "type", "t", "r:r:", "file:file:", "case:case:", "lang", ":", "::", "x:", "or:", "-:", "content", "sym"}
 
 var c07Values = map[string][]string{
-	"bool":   {"yes", "no", "yes", "no", "maybe", "", "YES", "1", "true", `"yes"`, "y\\es"},
-	"case":   {"yes", "no", "auto", "yes", "no", "auto", "Auto", "", "foo", `"yes"`},
-	"type":   {"filematch", "filename", "file", "repo", "repo", "file", "bogus", "", "Repo", `"repo"`, "file:"},
+	"bool":   {"yes", "no", "yes", "no", "yes", "no", "yes", "no", "yes", "no", "maybe", "", "YES", "1", "true", `"yes"`, "y\\es"},
+	"case":   {"yes", "no", "auto", "yes", "no", "auto", "yes", "no", "auto", "Auto", "", "foo", `"yes"`},
+	"type":   {"filematch", "filename", "file", "repo", "repo", "file", "filename", "file", "repo", "bogus", "", "Repo", `"repo"`, "file:"},
 	"lang":   {"go", "python", "Go", "c++", "cpp", "markdown", "nosuch", "", `"go"`, "c#", "objective-c++"},
 	"branch": {"main", "dev", "HEAD", "", "ma", "nosuch", `"main"`, "feature/x", "*"},
 }
 
+// c07Texts parse (as text or as a field value); c07BadTexts mostly do not.
 var c07Texts = []string{
 	"foo", "bar", "Foo", "needle", "Needle", "main", "func", "baz", "haystack", "x", "y", "日本", "été", "é",
-	"foo.*bar", `\bfoo\b`, "[a-z]+", "(a|b)", "(foo|bar)", "fo+", "a.b", `foo\.go`, `\.go$`, "^package", "ne+dle", "(?i)FOO", "(?P<n>x)", "(x)(y)", "a{2}", "a{1,3}", "a{1001}", "(a{500}){500}", `\p{Greek}`, `\pL+`, `\d+`, `\s*`, `\w`, `[^\n]*`, ".", ".*", "^", "$", "^$", "a|", "|", "()", "(?:)", "[[:alpha:]]", `\x41`, `\x{10FFFF}`, `\Qa.b\E`, `(?s).`, `(?U)a+`,
-	`\(`, `\)`, `foo\ bar`, `\"`, `\\`, `a\`, `\`, `"foo bar"`, `"a\"b"`, `"("`, `")"`, `""`, `"`, `"unterminated`, `"a\`, `"foo"bar`, `fo"o b"ar`, `"or"`, `"-x"`, `"file:x"`,
-	"or", "and", "OR", "not", "-", "--", "(", ")", "((", "))", "()", "( )", "(or)", "(-)", "(-foo)", "(lang:go)", "( lang:go )",
-	"*", "+", "?", "[", "]", "{", "}", "a**", "(?", "(?i", "[a", "a)", "(a", `[\`, `\8`, `\xZZ`, `\p{Nope}`, "\xff", "a\xffb", "\xc3", "\xed\xa0\x80", "\x00", "a\x00b", "sub-pixel", "a:b", "http://x", "foo:", ":foo", "case:yesfoo", "abccase:yes",
+	"foo.*bar", `\bfoo\b`, "[a-z]+", "(a|b)", "(foo|bar)", "fo+", "a.b", `foo\.go`, `\.go$`, "^package", "ne+dle", "(?i)FOO", "(?P<n>x)", "(x)(y)", "a{2}", "a{1,3}", `\p{Greek}`, `\pL+`, `\d+`, `\s*`, `\w`, `[^\n]*`, ".", ".*", "^", "$", "^$", "a|", "|", "()", "(?:)", "[[:alpha:]]", `\x41`, `\x{10FFFF}`, `\Qa.b\E`, `(?s).`, `(?U)a+`,
+	`\(`, `\)`, `foo\ bar`, `\"`, `\\`, `"foo bar"`, `"a\"b"`, `"("`, `")"`, `""`, `"foo"bar`, `fo"o b"ar`, `"or"`, `"-x"`, `"file:x"`, `"\\"`,
+	"or", "and", "OR", "not", "(or)", "(-)", "(-foo)", "(lang:go)", "( lang:go )", "( )", "()", "{", "}", "]", "sub-pixel", "a:b", "http://x", "foo:", ":foo", "case:yesfoo", "abccase:yes", "a-", "a--b",
+}
+
+var c07BadTexts = []string{
+	"a{1001}", "(a{500}){500}", `a\`, `\`, `"`, `"unterminated`, `"a\`, "-", "--", "(", ")", "((", "))", "*", "+", "?", "[", "a**", "(?", "(?i", "[a", "a)", "(a", `[\`, `\8`, `\xZZ`, `\p{Nope}`, "[z-a]", "x{2,1}", "(?P<>x)",
+	"\xff", "a\xffb", "\xc3", "\xed\xa0\x80", "\x00", "a\x00b", "\n", "a\nb", "\r",
+}
+
+func c07Text(g kit.G) string {
+	if c07Bool(g, 10, "badtext") {
+		return c07Pick(g, c07BadTexts, "bad")
+	}
+	return c07Pick(g, c07Texts, "text")
 }
 
 func c07FieldValue(g kit.G, field string) string {
 	switch field {
 	case "archived:", "fork:", "public:":
-		return kit.Pick(g, c07Values["bool"], "v")
+		return c07Pick(g, c07Values["bool"], "v")
 	case "case:":
-		return kit.Pick(g, c07Values["case"], "v")
+		return c07Pick(g, c07Values["case"], "v")
 	case "t:", "type:":
-		return kit.Pick(g, c07Values["type"], "v")
+		return c07Pick(g, c07Values["type"], "v")
 	case "lang:":
-		return kit.Pick(g, c07Values["lang"], "v")
+		return c07Pick(g, c07Values["lang"], "v")
 	case "b:", "branch:":
-		return kit.Pick(g, c07Values["branch"], "v")
+		return c07Pick(g, c07Values["branch"], "v")
 	}
-	if g.Bool(8, "emptyvalue") {
+	if c07Bool(g, 8, "emptyvalue") {
 		return ""
 	}
-	return kit.Pick(g, c07Texts, "v")
+	return c07Text(g)
 }
 
 func c07Expr(g kit.G, depth int) string {
 	var sb strings.Builder
-	switch k := g.Int(0, 99, "neg"); {
+	switch k := c07Pct(g, "neg"); {
 	case k < 18:
 		sb.WriteString("-")
 	case k < 20:
@@ -190,19 +222,19 @@ func c07Expr(g kit.G, depth int) string {
 	case k < 21:
 		sb.WriteString("- ")
 	}
-	k := g.Int(0, 99, "expr")
+	k := c07Pct(g, "expr")
 	switch {
 	case k < 45:
-		f := kit.Pick(g, c07Fields, "field")
+		f := c07Pick(g, c07Fields, "field")
 		sb.WriteString(f)
 		sb.WriteString(c07FieldValue(g, f))
 	case k < 48:
-		sb.WriteString(kit.Pick(g, c07NearFields, "near"))
-		sb.WriteString(kit.Pick(g, c07Texts, "v"))
+		sb.WriteString(c07Pick(g, c07NearFields, "near"))
+		sb.WriteString(c07Text(g))
 	case k < 82 || depth <= 0:
-		sb.WriteString(kit.Pick(g, c07Texts, "text"))
+		sb.WriteString(c07Text(g))
 	default:
-		sp := kit.Pick(g, []string{" ", " ", "", "  ", "\t"}, "sp")
+		sp := c07Pick(g, []string{" ", " ", "", "  ", "\t"}, "sp")
 		sb.WriteString("(" + sp + c07Query(g, depth-1) + sp + ")")
 	}
 	return sb.String()
@@ -214,12 +246,12 @@ func c07Conj(g kit.G, depth int) string {
 	for i := range parts {
 		parts[i] = c07Expr(g, depth)
 	}
-	return strings.Join(parts, kit.Pick(g, []string{" ", " ", " ", "  ", "\t"}, "ws"))
+	return strings.Join(parts, c07Pick(g, []string{" ", " ", " ", "  ", "\t"}, "ws"))
 }
 
 func c07Query(g kit.G, depth int) string {
 	n := 1
-	if g.Bool(30, "hasor") {
+	if c07Bool(g, 30, "hasor") {
 		n = g.Int(2, 3, "nor")
 	}
 	parts := make([]string, n)
@@ -240,24 +272,24 @@ func c07Soup(g kit.G) string {
 	for i := 0; i < n; i++ {
 		switch g.Int(0, 3, "soupkind") {
 		case 0:
-			sb.WriteString(kit.Pick(g, c07Fields, "field"))
+			sb.WriteString(c07Pick(g, c07Fields, "field"))
 		case 1:
-			sb.WriteString(kit.Pick(g, c07Texts, "text"))
+			sb.WriteString(c07Text(g))
 		default:
-			sb.WriteString(kit.Pick(g, c07SoupBits, "bit"))
+			sb.WriteString(c07Pick(g, c07SoupBits, "bit"))
 		}
 	}
 	return sb.String()
 }
 
-var c07MutBytes = []byte{'"', '\\', '(', ')', '-', ':', ' ', '\t', '\n', 0, 0xff, 0xc3, 0x80, 0xe2, '|', '*', '[', '.', 'o', 'r'}
+var c07MutBytes = []byte{'"', '\\', '(', ')', '-', '-', ':', ':', ' ', ' ', '\t', '\n', 0, 0xff, 0xc3, '|', '*', '[', '.', 'o', 'r', 'a', 'y', 's', 'e', '"', '\\', '(', ')'}
 
 func c07Mutate(g kit.G, s string) string {
 	b := []byte(s)
 	n := g.Int(1, 3, "nmut")
 	for i := 0; i < n; i++ {
 		if len(b) == 0 {
-			b = append(b, kit.Pick(g, c07MutBytes, "mb"))
+			b = append(b, c07Pick(g, c07MutBytes, "mb"))
 			continue
 		}
 		p := g.Int(0, len(b)-1, "mpos")
@@ -265,9 +297,9 @@ func c07Mutate(g kit.G, s string) string {
 		case 0:
 			b = append(b[:p], b[p+1:]...)
 		case 1:
-			b = append(b[:p], append([]byte{kit.Pick(g, c07MutBytes, "mb")}, b[p:]...)...)
+			b = append(b[:p], append([]byte{c07Pick(g, c07MutBytes, "mb")}, b[p:]...)...)
 		case 2:
-			b[p] = kit.Pick(g, c07MutBytes, "mb")
+			b[p] = c07Pick(g, c07MutBytes, "mb")
 		case 3:
 			b = b[:p]
 		case 4:
@@ -281,7 +313,7 @@ func c07Mutate(g kit.G, s string) string {
 }
 
 func c07QueryString(g kit.G) (string, string) {
-	switch k := g.Int(0, 99, "src"); {
+	switch k := c07Pct(g, "src"); {
 	case k < 55:
 		return c07Query(g, g.Int(0, 3, "depth")), "grammar"
 	case k < 70:
@@ -291,13 +323,15 @@ func c07QueryString(g kit.G) (string, string) {
 	case k < 96:
 		s := c07Query(g, 1)
 		p := g.Int(0, len(s), "pos")
-		bad := kit.Pick(g, []string{"\xff", "\xc3", "\xed\xa0\x80", "\xf4\x90\x80\x80", "\x80", "\xe6\x97"}, "bad")
+		bad := c07Pick(g, []string{"\xff", "\xc3", "\xed\xa0\x80", "\xf4\x90\x80\x80", "\x80", "\xe6\x97"}, "bad")
 		return s[:p] + bad + s[p:], "invalid-utf8"
 	default:
 		// deep nesting and long operator chains
 		n := g.Int(5, 200, "deep")
 		switch g.Int(0, 3, "deepkind") {
 		case 0:
+			// groups are capped: parsing time is exponential in their depth (see c07TooDeep)
+			n = 2 + n%(c07MaxGroupDepth-1)
 			return strings.Repeat("( ", n) + "foo" + strings.Repeat(" )", n), "deep"
 		case 1:
 			return strings.Repeat("-", n) + "foo", "deep"
@@ -324,24 +358,24 @@ func c07OptsJSON(g kit.G, list bool) string {
 		case 1:
 			return "{}"
 		default:
-			return `{"Field":` + kit.Pick(g, c07Ints, "int") + `}`
+			return `{"Field":` + c07Pick(g, c07Ints, "int") + `}`
 		}
 	}
 	fields := []string{"EstimateDocCount", "Whole", "ShardMaxMatchCount", "TotalMaxMatchCount", "ShardRepoMaxMatchCount", "MaxWallTime", "FlushWallTime", "MaxDocDisplayCount", "MaxMatchDisplayCount", "NumContextLines", "ChunkMatches", "UseBM25Scoring", "Trace", "DebugScore", "SpanContext", "Unknown", "numcontextlines"}
 	n := g.Int(0, 6, "nopts")
 	var parts []string
 	for i := 0; i < n; i++ {
-		f := kit.Pick(g, fields, "opt")
+		f := c07Pick(g, fields, "opt")
 		var v string
 		switch f {
 		case "EstimateDocCount", "Whole", "ChunkMatches", "UseBM25Scoring", "Trace", "DebugScore":
-			v = kit.Pick(g, []string{"true", "false", "true", "1", "null", `"true"`}, "bool")
+			v = c07Pick(g, []string{"true", "false", "true", "1", "null", `"true"`}, "bool")
 		case "SpanContext":
-			v = kit.Pick(g, []string{`{"a":"b"}`, `{}`, `null`, `[]`, `{"a":1}`, `{"uber-trace-id":"1:1:1:1"}`}, "span")
+			v = c07Pick(g, []string{`{"a":"b"}`, `{}`, `null`, `[]`, `{"a":1}`, `{"uber-trace-id":"1:1:1:1"}`}, "span")
 		case "MaxWallTime", "FlushWallTime":
-			v = kit.Pick(g, []string{"0", "1", "-1", "1000000", "1000000000", "9223372036854775807", "-9223372036854775808", `"1s"`, "1.5"}, "dur")
+			v = c07Pick(g, []string{"0", "1", "-1", "1000000", "1000000000", "9223372036854775807", "-9223372036854775808", `"1s"`, "1.5"}, "dur")
 		default:
-			v = kit.Pick(g, c07Ints, "int")
+			v = c07Pick(g, c07Ints, "int")
 		}
 		parts = append(parts, `"`+f+`":`+v)
 	}
@@ -350,17 +384,17 @@ func c07OptsJSON(g kit.G, list bool) string {
 
 func c07JSONCase(g kit.G) c07Case {
 	c := c07Case{Kind: "json", Method: "POST", Path: "/search"}
-	list := g.Bool(35, "list")
+	list := c07Bool(g, 35, "list")
 	if list {
 		c.Path = "/list"
 	}
-	if g.Bool(4, "method") {
-		c.Method = kit.Pick(g, []string{"GET", "PUT", "DELETE", "HEAD"}, "m")
+	if c07Bool(g, 4, "method") {
+		c.Method = c07Pick(g, []string{"GET", "PUT", "DELETE", "HEAD"}, "m")
 	}
 	var q string
-	if g.Bool(70, "plainq") {
+	if c07Bool(g, 70, "plainq") {
 		// mostly queries that parse, so that the options reach the searcher
-		q = kit.Pick(g, []string{"foo", "needle", "bar", "foo or bar", "file:go foo", "r:foo lang:go", "sym:Foo", "-foo", "type:file foo", "type:repo foo", "b:main foo", "foo.*bar", "case:yes Foo", "", "lang:python needle", "meta.license:Apache.*"}, "q")
+		q = c07Pick(g, []string{"foo", "needle", "bar", "foo or bar", "file:go foo", "r:foo lang:go", "sym:Foo", "-foo", "type:file foo", "type:repo foo", "b:main foo", "foo.*bar", "case:yes Foo", "", "lang:python needle", "meta.license:Apache.*"}, "q")
 	} else {
 		q, _ = c07QueryString(g)
 	}
@@ -372,22 +406,22 @@ func c07JSONCase(g kit.G) c07Case {
 	case k == 16:
 		parts = append(parts, `"q":`+qj) // field names match case-insensitively
 	case k == 17:
-		parts = append(parts, `"Q":`+kit.Pick(g, []string{"1", "null", "{}", "[]", "true"}, "badq"))
+		parts = append(parts, `"Q":`+c07Pick(g, []string{"1", "null", "{}", "[]", "true"}, "badq"))
 	default:
 		// no Q at all
 	}
-	if g.Bool(60, "hasopts") {
+	if c07Bool(g, 60, "hasopts") {
 		parts = append(parts, `"Opts":`+c07OptsJSON(g, list))
 	}
-	if !list && g.Bool(30, "repoids") {
-		parts = append(parts, `"RepoIDs":`+kit.Pick(g, []string{"null", "[]", "[1]", "[2,1]", "[3]", "[4294967295]", "[4294967296]", "[-1]", `["1"]`, "1", "[1.5]", "[null]"}, "ids"))
+	if !list && c07Bool(g, 30, "repoids") {
+		parts = append(parts, `"RepoIDs":`+c07Pick(g, []string{"null", "[]", "[1]", "[2,1]", "[3]", "[4294967295]", "[4294967296]", "[-1]", `["1"]`, "1", "[1.5]", "[null]"}, "ids"))
 	}
-	if g.Bool(5, "extra") {
+	if c07Bool(g, 5, "extra") {
 		parts = append(parts, `"Extra":{"a":[1,2,{"b":null}]}`)
 	}
 	body := "{" + strings.Join(parts, ",") + "}"
 	c.Src = "json-valid-shape"
-	switch k := g.Int(0, 99, "damage"); {
+	switch k := c07Pct(g, "damage"); {
 	case k < 70:
 	case k < 80:
 		body = body[:g.Int(0, len(body), "cut")]
@@ -396,7 +430,7 @@ func c07JSONCase(g kit.G) c07Case {
 		body = c07Mutate(g, body)
 		c.Src = "json-mutated"
 	case k < 94:
-		body = kit.Pick(g, []string{"", "null", "[]", "0", `""`, "{", "}", "{}", "nul", "{\"Q\":\"foo\"}{\"Q\":\"bar\"}", "{\"Q\":\"foo\"} trailing", "\xff\xfe", "\x00", "<html>", "Q=foo", strings.Repeat("[", 20000), strings.Repeat(`{"Opts":`, 5000), `{"Q":"` + strings.Repeat("a", 70000) + `"}`}, "garbage")
+		body = c07Pick(g, []string{"", "null", "[]", "0", `""`, "{", "}", "{}", "nul", "{\"Q\":\"foo\"}{\"Q\":\"bar\"}", "{\"Q\":\"foo\"} trailing", "\xff\xfe", "\x00", "<html>", "Q=foo", strings.Repeat("[", 20000), strings.Repeat(`{"Opts":`, 5000), `{"Q":"` + strings.Repeat("a", 70000) + `"}`}, "garbage")
 		c.Src = "json-garbage"
 	default:
 		n := g.Int(1, 40, "glen")
@@ -413,7 +447,7 @@ func c07JSONCase(g kit.G) c07Case {
 
 func c07Gen(rt *rapid.T) c07Case {
 	g := kit.G{T: rt}
-	if g.Bool(25, "json") {
+	if c07Bool(g, 25, "json") {
 		return c07JSONCase(g)
 	}
 	s, src := c07QueryString(g)
@@ -505,9 +539,13 @@ func c07Classify(sh c07Shape, op, path, msg string) string {
 		return "C07-meta-proto"
 	case sh.negatedCase && strings.Contains(msg, "*query.caseQ"):
 		return "C07-negated-scope-directive"
-	case sh.negatedType && (strings.Contains(msg, "nil pointer dereference") || strings.Contains(msg, "type <nil>")):
+	case sh.negatedType && (strings.Contains(msg, "nil pointer dereference") || strings.Contains(msg, "type <nil>") || strings.Contains(msg, "unknown query node <nil>")):
 		return "C07-negated-scope-directive"
 	case (op == "Search" || op == "List") && strings.Contains(msg, "type *query.Type"):
+		if sh.negatedType {
+			// (not type:repo) / (not type:filematch) with a nil child reaches the same log.Panicf
+			return "C07-negated-scope-directive"
+		}
 		if sh.typeFileMatch {
 			return "C07-type-filematch"
 		}
@@ -670,8 +708,37 @@ func c07ErrClass(err error) string {
 	return s
 }
 
+// query.Parse ends with Simplify, whose constant folding (evalAndOrConstants
+// calling Map(child, evalConstants) from inside evalConstants) visits every
+// subtree twice per And/Or level: parsing "( ( ( … foo … ) ) )" takes about
+// 4^depth steps (depth 12: seconds; depth 20: days). That is a hang, not a
+// panic, so it is outside what C07 states; such inputs are counted and skipped
+// so that the check itself terminates.
+const c07MaxGroupDepth = 8
+
+func c07TooDeep(s string) bool {
+	depth, maxDepth := 0, 0
+	for i := 0; i < len(s); i++ {
+		switch s[i] {
+		case '(':
+			depth++
+			if depth > maxDepth {
+				maxDepth = depth
+			}
+		case ')':
+			if depth > 0 {
+				depth--
+			}
+		}
+	}
+	return maxDepth > c07MaxGroupDepth
+}
+
 // c07CheckQueryString is parts (i) and (ii) for one byte string.
 func c07CheckQueryString(e *c07Env, rec *kit.Recorder, input string) (labels []string, nontrivial bool, verdict error) {
+	if c07TooDeep(input) {
+		return []string{"skipped:group-depth>8(exponential-parse-time)"}, false, nil
+	}
 	var q query.Q
 	var perr error
 	if err := kit.Guard(func() error { q, perr = query.Parse(input); return nil }); err != nil {
@@ -700,6 +767,10 @@ func c07CheckQueryString(e *c07Env, rec *kit.Recorder, input string) (labels []s
 
 // c07CheckJSON is part (iii) for one request.
 func c07CheckJSON(e *c07Env, rec *kit.Recorder, c c07Case) (labels []string, nontrivial bool, verdict error) {
+	var peek struct{ Q string }
+	if stdjson.Unmarshal(c.Body, &peek) == nil && c07TooDeep(peek.Q) {
+		return []string{"skipped:group-depth>8(exponential-parse-time)"}, false, nil
+	}
 	req := httptest.NewRequest(c.Method, c.Path, bytes.NewReader(c.Body))
 	w := httptest.NewRecorder()
 	if err := kit.Guard(func() error { e.http.ServeHTTP(w, req); return nil }); err != nil {
@@ -777,6 +848,18 @@ func c07Run(rec *kit.Recorder, c c07Case) error {
 	var nt bool
 	var verdict error
 	key := c.Kind + "\x00" + string(c.Input) + "\x00" + c.Method + c.Path + "\x00" + string(c.Body)
+	if c.Src == "exponential-parse-demo" {
+		// Only reachable through --replay of replays/found/C07-nested-groups-exponential-parse.json:
+		// demonstrates the blow-up that c07TooDeep protects the campaign from. Not part of the property.
+		t0 := time.Now()
+		_, _ = query.Parse(string(c.Input))
+		d := time.Since(t0)
+		rec.Eval(key, false, "demo")
+		if d > time.Second {
+			return kit.Fail("slow-parse", "query.Parse of %d bytes (%d nested groups) took %v", len(c.Input), strings.Count(string(c.Input), "("), d)
+		}
+		return nil
+	}
 	if c.Kind == "json" {
 		labels, nt, verdict = c07CheckJSON(e, rec, c)
 	} else {
@@ -786,7 +869,10 @@ func c07Run(rec *kit.Recorder, c c07Case) error {
 		}
 	}
 	labels = append(labels, "src:"+c.Src, "kind:"+c.Kind)
-	rec.Eval(key, nt && verdict == nil, labels...)
+	if verdict != nil {
+		labels = append(labels, "outcome:finding")
+	}
+	rec.Eval(key, nt, labels...)
 	if len(c.Body) < 2000 {
 		rec.Sample(c, nt && verdict == nil)
 	}
@@ -795,7 +881,7 @@ func c07Run(rec *kit.Recorder, c c07Case) error {
 
 func TestVerif_C07(t *testing.T) {
 	rec := kit.Open(t, "C07",
-		"75% query strings: output of a grammar for the documented query language (every field prefix incl. meta.<name>:, valid and invalid values, quoted / escaped / regexp texts, negation, tight and spaced groups, or), token soup of query fragments, 1-3 byte mutations of grammar output (delete / insert / replace / truncate / duplicate / bit flip), invalid UTF-8 insertions, deep nesting; 25% HTTP requests for the /search and /list JSON handlers: valid shapes with extreme option values and repo ids, truncated, mutated and garbage bodies, wrong methods; a case = one string or one request; non-trivial = the string parses to a query with >= 1 field atom and every operation on it returns, or the request is answered 200 without crashed shards; distinct by input",
+		"75% query strings: output of a grammar for the documented query language (every field prefix incl. meta.<name>:, valid and invalid values, quoted / escaped / regexp texts, negation, tight and spaced groups, or), token soup of query fragments, 1-3 byte mutations of grammar output (delete / insert / replace / truncate / duplicate / bit flip), invalid UTF-8 insertions, deep nesting; 25% HTTP requests for the /search and /list JSON handlers: valid shapes with extreme option values and repo ids, truncated, mutated and garbage bodies, wrong methods; a case = one string or one request; non-trivial = the string parses to a query with >= 1 field atom (all operations are then run on it), or the request is answered 200 without crashed shards; distinct by input",
 		"the corpus is fixed: 2 repositories / 5 documents, searched as two bare in-memory shards (index.NewSearcher, panics propagate) and through search.NewDirectorySearcher over the same shards on disk (a panic shows as Crashes > 0)",
 		"an error return is a legal answer everywhere; only panics, crashed shards and malformed HTTP answers are failures",
 		"a crash reported by the directory searcher (which hides the panic message) is attributed to a known finding only when the same operation on the bare shard panics with that finding's message",
